@@ -78,6 +78,26 @@ pub fn generate(thorough: bool, seed: u64, part: (usize, usize), em: &mut Emitte
         for cut in 0..(16 + pt.len()) { let mut ops = pre.clone(); ops.push(format!("X{}:{}", cut, hex(&pt))); emit(em, &k, &ops); }
         for ext in 1..4 { let mut ops = pre.clone(); ops.push(format!("A{}:{}", ext, hex(&pt))); emit(em, &k, &ops); }
     }
+    // histories in which a tampered message was rejected before: the same alteration again, genuine messages
+    // after it, another alteration after that (every rejection is judged on its own)
+    for i in 0..(if thorough { 400 } else { 48 }) {
+        let k = keys(&mut r);
+        let bit = if i % 3 == 0 { i % 32 } else { r.below(128) as usize };
+        let (p1, p2, p3) = (msg(&mut r), msg(&mut r), msg(&mut r));
+        let mut ops: Vec<String> = (0..(i % 3)).map(|_| format!("M{}", hex(&msg(&mut r)))).collect();
+        ops.push(format!("T{}:{}", bit, hex(&p1))); ops.push(format!("T{}:{}", bit, hex(&p1)));
+        ops.push(format!("M{}", hex(&p2))); ops.push(format!("T{}:{}", (bit + 9) % 32, hex(&p3))); ops.push(format!("T{}:{}", bit, hex(&p2)));
+        ops.push(format!("M{}", hex(&p3))); ops.push(format!("W{}", hex(&p1)));
+        emit(em, &k, &ops);
+    }
+    // sealed messages beyond 64 KiB (NTLM sealing has no such limit), in both directions, then a small one
+    if part.0 == 0 {
+        for n in &[65535usize, 65536, 70001] {
+            let k = keys(&mut r);
+            let big = r.bytes(*n);
+            emit(em, &k, &[format!("M{}", hex(&big)), format!("M{}", hex(&r.bytes(5))), format!("W{}", hex(&big[..*n - 3]))]);
+        }
+    }
     // raw hostile input to unwrap
     for _ in 0..(if thorough { 20000 } else { 2000 }) {
         let k = keys(&mut r);
